@@ -162,6 +162,15 @@ def corrupt(path, variant, rng_n):
         for d in doc:
             d.pop("attr", None)                           # another missing key: the attributes
         new = json.dumps(doc).encode() if doc else b"[{}]"
+    elif variant in (8, 9, 10, 11):
+        # every key is there, but the VALUES of "times" have the wrong JSON type or shape: numbers, strings cut short
+        # inside the value, dates without a time, lists around the strings - none of them is a time stamp save_cache wrote
+        doc = json.loads(raw)
+        for n, d in enumerate(doc):
+            ts = [t if isinstance(t, str) else "2018-01-01T00:00:00.000000" for t in d.get("times", [])] or ["2018-01-01T00:00:00.000000"]
+            d["times"] = {8: [0, 86400 + n], 9: [t[:13] if k == 0 else t[:7] for k, t in enumerate(ts)],
+                          10: [t[:10] for t in ts], 11: [[t] for t in ts]}[variant]
+        new = json.dumps(doc).encode() if doc else b"[{}]"
     else:
         new = b""                                         # empty file
     with open(path, "wb") as f:
@@ -483,7 +492,7 @@ def run(ctx):
     for n, c in enumerate(cases):
         has_corrupt = any(h[0] == "corrupt" for h in c["hist"])
         for k in ((KINDS4[n % 4],) if quick else KINDS4):
-            for v in (range(8) if has_corrupt else (0,)):
+            for v in (([(n + j) % 12 for j in range(8)] if quick else range(12)) if has_corrupt else (0,)):
                 items.append((c, k, n, v))
     ctx.notes["histories_ending_in_a_restart"] = len(cases)
     CAP = 150000
